@@ -159,8 +159,58 @@ fn tri<T: Sc>(t: &mut Toks, cx: &mut Ctx, to_q: Option<fn(&T) -> Option<Q>>) -> 
 fn k_all_zero<T: Sc>(v: &[T]) -> bool { v.iter().all(|x| *x == T::zero()) }
 fn fq(x: &f64) -> Option<Q> { let s = x * 1024.0; if s.fract() == 0.0 && s.abs() < 1e12 { Some(Q::new(s as i128, 1024)) } else { None } }
 
+/// history of edits of ONE tridiagonal matrix; after every step the whole object (n and the three diagonals as the
+/// accessors return them) is dumped and compared with three reference vectors; views: dense conversion, product with
+/// the ones vector and `==` against a twin freshly built from the reference
+fn tri_hist<T: Sc>(t: &mut Toks, cx: &mut Ctx) -> String {
+    let sub: Vec<T> = t.vec(); let main: Vec<T> = t.vec(); let sup: Vec<T> = t.vec();
+    let nops = t.usize();
+    cx.meta("tag", T::TAG); cx.meta("ops", nops);
+    let mut m = match guarded(|| Tridiagonal::with_vecs(sub.clone(), main.clone(), sup.clone())) { Ok(m) => m, Err(c) => return format!("!{}", c) };
+    let (mut rs, mut rm, mut ru) = (sub, main, sup);
+    let mut out = wr_tri(&m);
+    for _ in 0..nops {
+        let op = t.next();
+        let before = wr_tri(&m);
+        let r: Result<(), &'static str> = match op {
+            "resize" => { let n = t.usize(); let r = guarded(|| m.resize(n)); if r.is_ok() { rs = vec![T::zero(); n.saturating_sub(1)]; rm = vec![T::zero(); n]; ru = vec![T::zero(); n.saturating_sub(1)]; } else { cx.check(n == 0, "resize panicked for a positive size"); } r }
+            "set" => { let (i, j) = (t.usize(), t.usize()); let x: T = t.get(); let r = guarded(|| { m[(i, j)] = x; });
+                let n = rm.len(); let ok = i < n && j < n && (i == j || i == j + 1 || j == i + 1);
+                cx.check(r.is_ok() == ok, "indexed write: acceptance differs from the three-diagonal range");
+                if r.is_ok() && ok { if i == j { rm[i] = x; } else if i == j + 1 { rs[j] = x; } else { ru[i] = x; } }
+                if r.is_err() { cx.check(wr_tri(&m) == before, "a rejected indexed write modified the matrix"); }
+                r }
+            "trip" => { let r = guarded(|| m.transpose_in_place()); if r.is_ok() { std::mem::swap(&mut rs, &mut ru); } r }
+            "muls" | "divs" | "adds" | "subs" => { let x: T = t.get();
+                let r = guarded(|| match op { "muls" => m *= x, "divs" => m /= x, "adds" => m += x, _ => m -= x });
+                if r.is_ok() { for v in rs.iter_mut().chain(rm.iter_mut()).chain(ru.iter_mut()) { *v = match op { "muls" => *v * x, "divs" => *v / x, "adds" => *v + x, _ => *v - x }; } }
+                else { cx.check(op == "divs" && T::is_exact() && x == T::zero(), "a compound scalar operation panicked"); }
+                r }
+            _ => panic!("HARNESS: unknown tridiagonal op {}", op),
+        };
+        out.push_str(&format!(" ; {} {} | {}", op, match &r { Ok(_) => "ok".to_string(), Err(c) => format!("!{}", c) }, wr_tri(&m)));
+        if r.is_err() && cx.skip.is_none() && op == "divs" { /* state after a division panic is whatever the code left: compared with the model only */ continue; }
+        let n = rm.len();
+        cx.check(m.size() == n && same_vec(&m.subdiagonal().vec, &rs) && same_vec(&m.maindiagonal().vec, &rm) && same_vec(&m.superdiagonal().vec, &ru), "the three diagonals differ from the reference after the history");
+        if n >= 1 {
+            let twin = guarded(|| Tridiagonal::with_vecs(rs.clone(), rm.clone(), ru.clone()));
+            if let Ok(z) = &twin {
+                let d = guarded(|| m.convert()); let dz = guarded(|| z.convert());
+                match (&d, &dz) { (Ok(a), Ok(b)) => cx.check(same_mat(a, b), "dense conversion after the history differs from the twin's"), (Err(_), Err(_)) => {}, _ => cx.fail("dense conversion: one of history / twin panicked") }
+                let ones = Vector::new(n, T::one());
+                let (p1, p2) = (guarded(|| &m * &ones), guarded(|| z * &ones));
+                match (&p1, &p2) { (Ok(u), Ok(w)) => cx.check(same_vec(&u.vec, &w.vec), "product with the ones vector differs from the twin's"), (Err(_), Err(_)) => {}, _ => cx.fail("product with the ones vector: one of history / twin panicked") }
+                out.push_str(&format!(" | {}", match &p1 { Ok(u) => wr_vector(u), Err(c) => format!("!{}", c) }));
+            }
+        }
+        if cx.skip.is_some() { break; }
+    }
+    out
+}
+
 pub fn exec(op: &str, t: &mut Toks, cx: &mut Ctx) -> Option<String> {
     match op {
+        "tri_hist" => { let tag = t.next(); Some(match tag { "q" => tri_hist::<Q>(t, cx), "f" => tri_hist::<f64>(t, cx), _ => tri_hist::<Cmplx>(t, cx) }) }
         "tri" => { let tag = t.next(); Some(match tag { "q" => tri::<Q>(t, cx, Some(|x: &Q| Some(*x))), "f" => tri::<f64>(t, cx, Some(fq)), _ => tri::<Cmplx>(t, cx, None) }) }
         _ => None,
     }
@@ -194,6 +244,22 @@ fn one_k<T: Sc>(rng: &mut Rng, n: usize, class: usize, bad: bool, wide: usize) -
 }
 
 pub fn gen(rng: &mut Rng, tier: Tier, out: &mut Vec<String>) {
+    // histories of one tridiagonal matrix
+    for k in 0..(if tier == Tier::Quick { 120 } else { 2500 }) {
+        let mut n = 1 + rng.below(6);
+        let mut s = if k % 4 == 3 { format!("tri_hist f {} {} {}", gen_vec_str::<f64>(rng, n - 1, 10, 0), gen_vec_str::<f64>(rng, n, 10, 0), gen_vec_str::<f64>(rng, n - 1, 10, 0)) }
+                    else { format!("tri_hist q {} {} {}", gen_vec_str::<Q>(rng, n - 1, 10, 0), gen_vec_str::<Q>(rng, n, 10, 0), gen_vec_str::<Q>(rng, n - 1, 10, 0)) };
+        let isq = k % 4 != 3;
+        let sc = |rng: &mut Rng, nz: bool| if isq { let mut q = Q::gen(rng, 0, 0); if nz && q == Q::int(0) { q = Q::int(2); } q.wr() } else { let mut x = f64::gen(rng, 0, 0); if nz && x == 0.0 { x = 2.0; } x.wr() };
+        let nops = 2 + rng.below(7); let mut ops = String::new();
+        for _ in 0..nops { match rng.below(7) {
+            0 | 1 => { n = 1 + rng.below(6); ops.push_str(&format!(" resize {}", n)); }
+            2 | 3 => { let i = rng.below(n + 1); let j = match rng.below(4) { 0 => i, 1 => i + 1, 2 => i.saturating_sub(1), _ => rng.below(n + 1) }; ops.push_str(&format!(" set {} {} {}", i, j, sc(rng, false))); }
+            4 => ops.push_str(" trip"),
+            _ => { let o = *rng.pick(&["muls", "divs", "adds", "subs"]); ops.push_str(&format!(" {} {}", o, sc(rng, o == "divs"))); }
+        } }
+        s.push_str(&format!(" {}{}", nops, ops)); out.push(s);
+    }
     let reps = if tier == Tier::Quick { 3 } else { 60 };
     for n in 1..=12usize { for class in 0..6 { for r in 0..reps {
         out.push(one::<Q>(rng, n, class, r == 2 && class == 1));
